@@ -606,6 +606,12 @@ class ExprMixin:
             if hi is None and isinstance(clo, int) and clo >= 0:
                 r = z3.SubSeq(t, z3.IntVal(clo), n - clo) if not isinstance(obj, VStr) else z3.SubString(t, z3.IntVal(clo), n - clo)
                 return VStr(r, is_bytes=obj.is_bytes) if isinstance(obj, VStr) else VList(obj.elem, seq=r)
+            chi = None if hi is None else concrete_of(hi)
+            if (lo is None or clo == 0) and isinstance(chi, int) and not isinstance(chi, bool) and chi >= 0:
+                # xs[:K] with a constant K >= 0: seq.extract / str.substr clip at the end of the sequence by definition,
+                # so no conditional term is needed (Seq-sorted ite terms also trigger a z3 recfun soundness bug)
+                r = z3.SubSeq(t, z3.IntVal(0), z3.IntVal(chi)) if not isinstance(obj, VStr) else z3.SubString(t, z3.IntVal(0), z3.IntVal(chi))
+                return VStr(r, is_bytes=obj.is_bytes) if isinstance(obj, VStr) else VList(obj.elem, seq=r)
             lo_t = z3.IntVal(0) if lo is None else self._clamp(self._norm_index(coerce(lo, Int).t, n), n)
             hi_t = n if hi is None else self._clamp(self._norm_index(coerce(hi, Int).t, n), n)
             ln = z3.If(hi_t > lo_t, hi_t - lo_t, z3.IntVal(0))
@@ -845,6 +851,9 @@ class ExprMixin:
                 ok = z3.And(ok, c)
                 self.run.ctx.append(c)
             val = self.eval(e.elt, sub)
+            from .ty import VOpt as _VOpt
+            if isinstance(val, _VOpt) and g.ifs and self.known(z3.Not(val.isnone)) is True:
+                val = val.val  # the filter guarantees a non-None element: [v for ... if (v := f(x))] is a list of values
             lifted = list(self.binder_raises or [])
         finally:
             del self.run.ctx[saved:]
@@ -857,6 +866,8 @@ class ExprMixin:
         from .ex import _type_of_value
         oty = _type_of_value(val)
         body_val = oty.pack(val)
+        if z3.is_true(simp(ok)) and body_val.eq(x) and not lifted:
+            return VList(elem, seq=it.seq)  # [x for x in xs] (filter statically true): the sequence itself
         f, caps = self._gen_recfun("mapfilter", elem, x, [body_val, ok], oty)
         return VList(oty, seq=f(it.seq, *caps))
 
